@@ -387,3 +387,57 @@ def rand_costs(rng, plain=False, coherent_only=True, hi=3) -> dict:
             c["sloss"] = 1
         if not coherent_only or coherent(c, plain):
             return c
+
+
+# ---------------------------------------------------------------------------
+# witnesses written with names (known_findings.jsonl) -> case format
+
+
+def _parse_newick(nw: str):
+    nw = nw.strip().rstrip(";")
+    pos = [0]
+
+    def rd():
+        ch = []
+        if nw[pos[0]] == "(":
+            pos[0] += 1
+            while True:
+                ch.append(rd())
+                if nw[pos[0]] == ",":
+                    pos[0] += 1
+                    continue
+                if nw[pos[0]] == ")":
+                    pos[0] += 1
+                    break
+        j = pos[0]
+        while j < len(nw) and nw[j] not in ",()":
+            j += 1
+        name = nw[pos[0]:j]
+        pos[0] = j
+        return (name, ch)
+    return rd()
+
+
+def case_from_names(w: dict) -> dict:
+    """{"object": newick, "species": newick, "leafmap": {obj leaf: species leaf}, "syntenies": {obj leaf: [names]}, "costs"} -> case"""
+    if "S" in w:
+        return w
+    sp = _parse_newick(w["species"])
+    spaths = {}
+
+    def sshape(t, p):
+        spaths[t[0]] = p
+        if not t[1]:
+            return 0
+        return [sshape(t[1][0], p + "0"), sshape(t[1][1], p + "1")]
+    S = sshape(sp, "")
+    fams = {}
+
+    def fam(x):
+        return fams.setdefault(x, len(fams) + 1)
+
+    def oshape(t):
+        if not t[1]:
+            return {"sp": spaths[w["leafmap"][t[0]]], "syn": [fam(x) for x in w.get("syntenies", {}).get(t[0], [])]}
+        return [oshape(t[1][0]), oshape(t[1][1])]
+    return {"S": S, "O": oshape(_parse_newick(w["object"])), "costs": w["costs"]}
